@@ -62,3 +62,42 @@ package xpkg
 //@ func xpkg.IsValidatingWebhookConfiguration
 //@ props C15
 //@ ensures [C15:validating-webhook-kind] (err == nil) <==> typeis(o, *admv1.ValidatingWebhookConfiguration)
+
+// The meta-type predicates accept an object only if it is the package type's meta object
+// or was converted to it (an older meta version): meta of another package type is refused.
+//@ func xpkg.TryConvert
+//@ props C15
+//@ ensures [C15:converted-object-is-a-candidate] result1 ==> exists i :: 0 <= i && i < len(candidates) && result0 == candidates[i]
+//@ ensures [C15:unconverted-object-returned-as-is] !result1 ==> result0 == obj
+
+//@ func xpkg.IsProvider
+//@ props C15
+//@ let $converted = result 1 xpkg.TryConvert
+//@ ensures [C15:provider-meta-is-or-converts-to-provider] err == nil ==> (typeis(o, *pkgmetav1.Provider) || $converted)
+
+//@ func xpkg.IsConfiguration
+//@ props C15
+//@ let $converted = result 1 xpkg.TryConvert
+//@ ensures [C15:configuration-meta-is-or-converts-to-configuration] err == nil ==> (typeis(o, *pkgmetav1.Configuration) || $converted)
+
+//@ func xpkg.IsFunction
+//@ props C15
+//@ let $converted = result 1 xpkg.TryConvert
+//@ ensures [C15:function-meta-is-or-converts-to-function] err == nil ==> (typeis(o, *pkgmetav1.Function) || $converted)
+
+// The reader handed to the parser on a cold reconcile is a tee of the image stream into the
+// cache writer, and reading from it reads through that tee (so that what is parsed is what is
+// cached; the byte-level behaviour is exercised by the bounded stand-in tee-into-cache).
+//@ func xpkg.TeeReadCloser
+//@ props C15
+//@ let $tee = result io.TeeReader
+//@ site io.TeeReader($r, $w)
+//@   assert [C15:tee-copies-the-stream-into-the-given-writer] $r == r && $w == w
+//@ ensures [C15:tee-reader-is-what-is-read] result != nil && typeis(result, *teeReadCloser) && as(result, *teeReadCloser).t == $tee
+//@      && as(result, *teeReadCloser).r == r && as(result, *teeReadCloser).w == w
+
+//@ func (*xpkg.teeReadCloser).Read
+//@ props C15
+//@ requires t != nil
+//@ site (io.Reader).Read($rd, $buf)
+//@   assert [C15:reads-go-through-the-tee] $rd == t.t && $buf == b
